@@ -23,15 +23,31 @@
      slot job, by runner    dequeue (LQueue, lazily before S1) ; os send ready = LReadySend ; os poll fin = LFinPoll (result compared) ;
                             cs fres f = LSfSignal, followed by one more `cs fres f` of the same task (Drop of the signaller:
                             not a model step).  The runner is AQueue, or ATask at PDrainJob when the runner is T itself.
-     sf OSTART/OEND k       other operation on the object: LQueue steps OStart / OFinish of the model's queue
      sf FIRE e              AEvent e (LEvent)
-   Not model steps: `os rxdrop` of the ready receiver after Ready (folded into PCreate; checked: the model's receiver is gone),
-   `os rxdrop` of done_recv, all `cs core` / dwaker / dblwaker sections (the queue is abstract in the model).
+     other operations       D/S/T/F: sf OSTART / sf OEND of their bodies; another future_sync on the object: its slot job, from its
+                            queue_ready send to the drop of its done_recv.  LQueue steps OStart / OFinish of the model's queue.
+                            When T's drain_queue runs one and then goes on to its Pending path (`cs fres f` while the model has the
+                            other operation in progress) the operation has returned Pending: AOSusp (silent).  A suspended other
+                            operation is resumed by AOWake (silent; inferred when a background runner continues it, or when T is
+                            polled again although nothing else has woken it: the DoubleWaker of drain_queue).
+     a runner polls done_recv of a parked slot job without any wake-up: AWakeQ (silent) first (a pool thread took the queue in
+                            state WaitingForPoll from a stale entry of the schedule)
+   Not model steps: `os rxdrop` of the ready receiver after Ready (folded into PCreate; checked: exactly once, before the user
+   future is polled), `os rxdrop` of done_recv (checked: exactly once, between its resolution and the signal), the second
+   `cs fres f` of the signalling task, all `cs core` / dwaker / dblwaker sections (the queue is abstract in the model).
    `os send` / `os txdrop` lines are written AFTER the operation, whose wake-ups contain scheduling points: a poll by the
-   woken task may be logged before them.  When a logged poll result needs a send/drop that the model has not seen yet, the
-   first later `os send`/`os txdrop` line of that channel is replayed at once (counted as pull_forward).
+   woken task may be logged before them.  When a logged poll result (or a poll by block_on) needs a send/drop that the model
+   has not seen yet, the first later `os send`/`os txdrop` line of that channel is replayed at once (counted as pull_forward).
    At the end the observables recomputed from the log (user future started / finished / cancelled, result, dropped, slot
-   ended, and the order of all these and of the other operations' starts and ends) are compared with the model's ghost log.
+   started / ended, and the order of all these and of the other operations' starts and ends; the future "resolves" at T's last
+   section on the result cell before the harness reports Ok) are compared with the model's ghost log.
+   SKIP: status not ok; no future_sync; body prims other than t / w<e>; future_sync nested in a body; suspend (U); a future on
+   the same object awaited with .sync() (F..s: its queue job has no marker).
+   A poll by block_on without the model's task having been woken is accepted (AWake, counted as wake_delivered_late) only if
+   an earlier wake-up of the task found it already woken: the calls of wakers are not atomic with the steps that take them.
+   Blind spots (tamper.py): sf FIRE of an event nobody waits for afterwards, or fired twice; markers of other operations (an
+   operation whose OSTART is deleted vanishes); the signal section vs. the signaller's Drop section (indistinguishable: no
+   snapshot); spurious polls of a parked done_recv (the model allows any number).
    Usage: replay_syncfut [--swapped] [--trace] [--single] file.log ...   (--single: skip logs with several future_sync on one object) *)
 open Syncfutmodel
 
@@ -49,13 +65,13 @@ let single = ref false
 
 (* ---------- program text ---------- *)
 type yop = { yobj : int; ybody : uprim list option }
-type pinfo = { nev : int; ys : yop list array (* per caller, top-level Y operations in order *); has_u : bool }
+type pinfo = { nev : int; ys : yop list array (* per caller, top-level Y operations in order *); has_u : bool; sync_objs : int list (* objects with a future awaited by .sync() *) }
 
 let parse_prog (text : string) : pinfo =
   let parts = Array.of_list (String.split_on_char '|' text) in
   let header = parts.(0) in
   let nev = (try Scanf.sscanf (List.find (fun w -> String.length w > 3 && String.sub w 0 3 = "ev=") (String.split_on_char ' ' header)) "ev=%d" (fun x -> x) with _ -> 0) in
-  let has_u = ref false in
+  let has_u = ref false and sync_objs = ref [] in
   let num s from = let n = String.length s in let j = ref from in
     while !j < n && s.[!j] >= '0' && s.[!j] <= '9' do incr j done;
     (int_of_string (String.sub s from (!j - from)), !j) in
@@ -72,13 +88,14 @@ let parse_prog (text : string) : pinfo =
       let toks = List.filter (fun x -> x <> "") (String.split_on_char ' ' parts.(c + 1)) in
       List.concat_map (fun t ->
           if t.[0] = 'U' then has_u := true;
+          if (t.[0] = 'F' || t.[0] = 'A') && t.[String.length t - 1] = 's' then sync_objs := fst (num t 1) :: !sync_objs;
           let inner = (try let a = String.index t '[' in String.sub t (a + 1) (String.rindex t ']' - a - 1) with Not_found -> "") in
           if t.[0] <> 'Y' && String.contains inner 'Y' then raise (Unsupported "future_sync nested in another operation's body");
           if t.[0] = 'Y' then begin
             let (q, _) = num t 1 in
             [ { yobj = q; ybody = parse_body inner } ] end
           else []) toks) in
-  { nev; ys; has_u = !has_u }
+  { nev; ys; has_u = !has_u; sync_objs = !sync_objs }
 
 (* ---------- printing ---------- *)
 let show_pc = function
@@ -137,16 +154,26 @@ let find_instances (p : pinfo) (evs : ev array) : inst list =
   List.rev !res
 
 (* ---------- replay of one future_sync call ---------- *)
-let replay_one (p : pinfo) (evs : ev array) (y : inst) (st : stats) : unit =
+let replay_one (p : pinfo) (evs : ev array) (insts : inst list) (y : inst) (st : stats) : unit =
   let n = Array.length evs in
   Array.iter (fun e -> e.used <- false) evs;
   let objs = string_of_int y.obj in
-  let is_other_start e = e.kind = "sf" && e.cls = "OSTART" && e.id <> y.oid && e.snap = objs in
+  (* the other operations on the object: D/S/T/F by the markers of their bodies; another future_sync by its slot job
+     (first action: its queue_ready send; last channel action: the drop of its done_recv) *)
+  let other_ys = List.filter (fun z -> z.oid <> y.oid && z.obj = y.obj) insts in
+  let is_y_oid o = List.exists (fun z -> z.oid = o) insts in
   let s1_index = (let r = ref max_int in Array.iteri (fun k e -> if !r = max_int && e.kind = "os" && e.cls = "send" && e.id = y.cr then r := k) evs; !r) in
-  let other_num : (int, int) Hashtbl.t = Hashtbl.create 8 in
+  let start_at : (int, int) Hashtbl.t = Hashtbl.create 8 and end_at : (int, int) Hashtbl.t = Hashtbl.create 8 in
+  let key_num : (string, int) Hashtbl.t = Hashtbl.create 8 in
   let nb = ref 0 and na = ref 0 in
-  Array.iteri (fun k e -> if is_other_start e then begin
-      Hashtbl.replace other_num e.id (!nb + !na); if k < s1_index then incr nb else incr na end) evs;
+  Array.iteri (fun k e ->
+      let start key = (Hashtbl.replace key_num key (!nb + !na); Hashtbl.replace start_at k (!nb + !na); if k < s1_index then incr nb else incr na) in
+      let fin key = (match Hashtbl.find_opt key_num key with Some num -> Hashtbl.replace end_at k num | None -> ()) in
+      if e.kind = "sf" && e.cls = "OSTART" && e.snap = objs && not (is_y_oid e.id) then start (Printf.sprintf "o%d" e.id)
+      else if e.kind = "sf" && e.cls = "OEND" && not (is_y_oid e.id) then fin (Printf.sprintf "o%d" e.id)
+      else if e.kind = "os" && e.cls = "send" && List.exists (fun z -> z.cr = e.id) other_ys then start (Printf.sprintf "y%d" e.id)
+      else if e.kind = "os" && e.cls = "rxdrop" then
+        (match List.find_opt (fun z -> z.cf = e.id) other_ys with Some z -> fin (Printf.sprintf "y%d" z.cr) | None -> ())) evs;
   (* the moment the future resolves: T's last section on the result cell before the harness reports the result *)
   let ret_index = (let r = ref (-1) and stop = ref false in
                    Array.iteri (fun k e -> if not !stop then begin
@@ -155,7 +182,12 @@ let replay_one (p : pinfo) (evs : ev array) (y : inst) (st : stats) : unit =
   let s = ref (init true (nat_of_int !nb) (nat_of_int !na) y.body (nat_of_int y.oid) (nat_of_int p.nev)) in
   let cur = ref 0 in
   let div fmt = Printf.ksprintf (fun m -> raise (Diverge (Printf.sprintf "future_sync op %d, event %d: %s" y.oid !cur m))) fmt in
+  (* wake-ups of T that found it already woken: the call of a waker is not atomic with the step that takes it (e.g. the two
+     calls of a DoubleWaker), so such a wake-up may be delivered later and cause one more poll *)
+  let merged_wakes = ref 0 in
   let do_step (a : actor) (l : label option) (why : string) =
+    (if !s.pollable && a <> AWake then
+       match step !facts { !s with pollable = false } a with Some s2 when s2.pollable -> incr merged_wakes | _ -> ());
     match step !facts !s a with
     | None -> div "%s: model actor %s is not enabled, the implementation performed %s (model: %s)" why (show_actor a) (show_label l) (show_state !s)
     | Some s' ->
@@ -163,7 +195,15 @@ let replay_one (p : pinfo) (evs : ev array) (y : inst) (st : stats) : unit =
       if l' <> l then div "%s: model actor %s is at a %s step, the implementation performed %s (model: %s)" why (show_actor a) (show_label l') (show_label l) (show_state !s);
       if !trace then Printf.printf "  [op %d, event %d] %s (%s): %s\n" y.oid !cur (show_actor a) (show_label l) why;
       s := s'; st.steps <- st.steps + 1; if l <> None then st.labelled <- st.labelled + 1 in
-  let runner t = if t = y.tT && !s.pc = PDrainJob then ATask else AQueue in
+  let runner t =
+    if t = y.tT && !s.pc = PDrainJob then ATask
+    else begin
+      (* a background runner continues a parked operation: it was woken (unobservable for other operations), or it polls again
+         without a wake-up (stale schedule entry) *)
+      if !s.parked then begin
+        if is_other !s.cur && !s.owk <> None then (hit "other_op_resumed"; do_step AOWake None "the suspended other operation is resumed")
+        else (hit "parked_queue_polled_again_without_wake"; do_step AWakeQ None "a runner takes the parked queue without a wake-up") end;
+      AQueue end in
   let in_user () = (match !s.pc, !s.sst with PUser, _ -> true | PLoop, SWaitFuture -> true | _ -> false) in
   (* silent steps of the user future that leave no trace: its poll begins, touches *)
   let settle_user () =
@@ -179,7 +219,7 @@ let replay_one (p : pinfo) (evs : ev array) (y : inst) (st : stats) : unit =
        | _ -> continue := false)
     done in
   let active = ref true and sigdrop : int option ref = ref None in
-  let started_others : (int, unit) Hashtbl.t = Hashtbl.create 8 in
+  let owe_rxdrop_ready = ref false and owe_rxdrop_fin = ref false and in_body = ref false in
   (* the implementation's observables, from the log in log order *)
   let impl_seq = ref [] in
   let push tok = impl_seq := tok :: !impl_seq in
@@ -201,7 +241,11 @@ let replay_one (p : pinfo) (evs : ev array) (y : inst) (st : stats) : unit =
     e.used <- true;
     match e.kind, e.cls with
     | "sf", "POLL" when t = y.tT && !active && k > y.at ->
+      if not !s.pollable && !s.parked && is_other !s.cur && !s.owk = Some WBoth && not (in_drain !s.pc) then
+        (hit "other_op_resumed_wakes_T"; do_step AOWake None "the other operation suspended in T's drain is resumed");
       if not !s.pollable && !s.ready.o_waker = Some WTask && not !s.ready.o_sent then ignore (pull_forward y.cr "send" "ready_send_before_poll");
+      if not !s.pollable && !merged_wakes > 0 then
+        (decr merged_wakes; hit "wake_delivered_late"; do_step AWake None "a wake-up that found the task already woken is delivered late");
       if not !s.pollable then div "block_on polls the future, but in the model its task has not been woken since its last poll (model: %s)" (show_state !s);
       do_step ATask None "SyncFuture::poll begins"
     | "sf", "DROPFUT" when t = y.tT && !active && k > y.at ->
@@ -212,6 +256,7 @@ let replay_one (p : pinfo) (evs : ev array) (y : inst) (st : stats) : unit =
        | _ -> ());
       push "dropped"; do_step ADrop (Some LDrop) "the harness drops the future"
     | "sf", "YDONE" when e.id = y.oid ->
+      if not !active then div "the harness reports the end of the future_sync call twice";
       settle_drop ();
       (match e.snap with
        | "dropped" -> if !s.pc <> PGone then div "the future has been dropped, the model's task is at %s (model: %s)" (show_pc !s.pc) (show_state !s)
@@ -222,8 +267,10 @@ let replay_one (p : pinfo) (evs : ev array) (y : inst) (st : stats) : unit =
       active := false
     | "sf", "OSTART" when e.id = y.oid ->
       if !s.pc <> PCreate then div "create_future() ran, the model's task is at %s (model: %s)" (show_pc !s.pc) (show_state !s);
-      push "ustart"; do_step ATask None "create_future()"
+      push "ustart"; do_step ATask None "create_future()"; owe_rxdrop_ready := true; in_body := true
     | "sf", "OEND" when e.id = y.oid ->
+      if !owe_rxdrop_ready then div "the user future ends, but the queue_ready receiver has not been dropped after create_future()";
+      in_body := false;
       if e.snap = "finished" then begin
         settle_user ();
         (match !s.pc, !s.uscr with PUser, [] -> () | _ -> div "the user future completed, the model's is at %s with %d primitives left" (show_pc !s.pc) (List.length !s.uscr));
@@ -231,20 +278,24 @@ let replay_one (p : pinfo) (evs : ev array) (y : inst) (st : stats) : unit =
       else begin
         (match !s.pc, !s.sst with PDropState, SWaitFuture -> () | _ -> div "the user future was destroyed unfinished, the model's task is at %s in %s" (show_pc !s.pc) (show_sst !s.sst));
         push "ucancel"; do_step ATask (Some LDrop) "drop(state): the user future is destroyed" end
-    | "sf", "OSTART" when is_other_start e ->
-      let num = Hashtbl.find other_num e.id in
+    | _, _ when Hashtbl.mem start_at k ->
+      let num = Hashtbl.find start_at k in
+      let r = runner t in
       (match !s.cur, !s.opq with
        | CNone, Other j :: _ when i j = num -> ()
-       | _ -> div "operation %d (the model's Other %d) starts on the object, but the model's queue is at %s (model: %s)" e.id num (show_cur !s.cur) (show_state !s));
-      Hashtbl.replace started_others e.id (); push (Printf.sprintf "S%d" num);
-      hit (if t = y.tT && !s.pc = PDrainJob then "other_op_run_by_T_draining" else "other_op_run_elsewhere");
-      do_step (runner t) (Some LQueue) "another operation starts"
-    | "sf", "OEND" when Hashtbl.mem started_others e.id ->
-      let num = Hashtbl.find other_num e.id in
-      (match !s.cur with COther j when i j = num -> () | _ -> div "operation %d (Other %d) ends, the model's queue is at %s" e.id num (show_cur !s.cur));
-      Hashtbl.remove started_others e.id; push (Printf.sprintf "F%d" num);
-      do_step (runner t) (Some LQueue) "another operation ends"
-    | "sf", "EVPOLL" when t = y.tT && !active && in_user () ->
+       | _ -> div "another operation (the model's Other %d) starts on the object, but the model's queue is at %s (model: %s)" num (show_cur !s.cur) (show_state !s));
+      push (Printf.sprintf "S%d" num);
+      hit (if r = ATask then "other_op_run_by_T_draining" else "other_op_run_elsewhere");
+      do_step r (Some LQueue) "another operation starts"
+    | _, _ when Hashtbl.mem end_at k ->
+      let num = Hashtbl.find end_at k in
+      let r = runner t in
+      (match !s.cur with COther j when i j = num -> () | _ -> div "another operation (Other %d) ends, the model's queue is at %s" num (show_cur !s.cur));
+      push (Printf.sprintf "F%d" num);
+      do_step r (Some LQueue) "another operation ends"
+    | "sf", "EVPOLL" when t = y.tT && !active && (in_user () || !in_body) ->
+      if !owe_rxdrop_ready then div "the user future is polled, but the queue_ready receiver has not been dropped after create_future()";
+      if not (in_user ()) then div "the user future polls event %d, but the model's task is not polling it (model: %s)" e.id (show_state !s);
       settle_user ();
       (match !s.uscr with
        | UAwait e' :: _ when i e' = e.id -> ()
@@ -297,7 +348,10 @@ let replay_one (p : pinfo) (evs : ev array) (y : inst) (st : stats) : unit =
       if t <> y.tT then div "task %d drops the queue_ready receiver" t;
       (match !s.pc, !s.sst with
        | PDropState, SWaitQueue -> do_step ATask (Some LDrop) "drop(state): the queue_ready receiver is dropped"
-       | _ -> if not !s.ready.o_rxdrop then div "the queue_ready receiver is dropped, in the model it is still alive (model: %s)" (show_state !s))
+       | _ ->
+         if not !s.ready.o_rxdrop then div "the queue_ready receiver is dropped, in the model it is still alive (model: %s)" (show_state !s);
+         if not !owe_rxdrop_ready then div "the queue_ready receiver is dropped twice";
+         owe_rxdrop_ready := false)
     | "txdrop" -> div "the queue_ready sender was dropped unsent (the slot job was destroyed)"
     | _ -> ()
   and handle_fin (k : int) (e : ev) (cls : string) =
@@ -310,7 +364,8 @@ let replay_one (p : pinfo) (evs : ev array) (y : inst) (st : stats) : unit =
       let exp = poll_result !s.fin in
       if exp <> e.snap then div "done_recv.poll returned %s, the model's channel gives %s (model: %s)" e.snap exp (show_state !s);
       hit ("fin_poll_" ^ exp ^ (if !s.parked then "_again" else ""));
-      do_step (runner t) (Some LFinPoll) "done_recv.poll"
+      do_step (runner t) (Some LFinPoll) "done_recv.poll";
+      if exp <> "pending" then owe_rxdrop_fin := true
     | "send" ->
       if t <> y.tT then div "task %d sends task_finished" t;
       if e.snap <> "ok" then div "task_finished.send returned %s" e.snap;
@@ -323,11 +378,15 @@ let replay_one (p : pinfo) (evs : ev array) (y : inst) (st : stats) : unit =
       do_step ATask (Some LDrop) "drop(task_finished)"
     | "rxdrop" ->
       (* the slot job drops done_recv once it has resolved: not a model step *)
-      (match !s.cur with CSlot QS3 -> () | _ -> div "done_recv is dropped, the model's slot job is at %s" (show_cur !s.cur))
+      (match !s.cur with CSlot QS3 -> () | _ -> div "done_recv is dropped, the model's slot job is at %s" (show_cur !s.cur));
+      if not !owe_rxdrop_fin then div "done_recv is dropped twice";
+      owe_rxdrop_fin := false
     | _ -> ()
   and handle_fres (k : int) (e : ev) =
     let t = e.task in
     if k = ret_index then push "ret";
+    if t = y.tT && !active && !sigdrop <> Some t && !s.pc = PDrainJob && is_other !s.cur then
+      (hit "other_op_suspends_in_T_drain"; do_step AOSusp None "the other operation run by drain_queue returns Pending");
     if !sigdrop = Some t then begin sigdrop := None; hit "signaller_drop_section" end
     else if t = y.tT && !active && (match !s.pc, !s.sst with
         | PLoop, (SWaitQueue | SWaitSched _) -> true | (PDrainLoop | PDrainPend | PDrainWaker), _ -> true | _ -> false) then begin
@@ -339,6 +398,7 @@ let replay_one (p : pinfo) (evs : ev array) (y : inst) (st : stats) : unit =
       | _ -> do_step ATask (Some LSfPoll) "drain_queue section on the result"
     end else begin
       (match !s.cur with CSlot QS3 -> () | _ -> div "task %d locks the result cell; it is not the polling task at a poll section and the model's slot job is at %s (model: %s)" t (show_cur !s.cur) (show_state !s));
+      if !owe_rxdrop_fin then div "the slot job signals, but done_recv has not been dropped";
       push "slotend"; do_step (runner t) (Some LSfSignal) "send.signal(())"; sigdrop := Some t
     end in
   (* ---------- main loop ---------- *)
@@ -386,17 +446,19 @@ let () =
            if p.has_u then raise (Unsupported "suspend (U) in the program: queue-level objects");
            let insts = find_instances p evs in
            if insts = [] then raise (Unsupported "no future_sync call in the log");
+           if List.exists (fun y -> List.mem y.obj p.sync_objs) insts then raise (Unsupported "a future on the same object is awaited with .sync(): its job on the queue is not announced by a marker");
            if !single then begin
              let objs = List.map (fun y -> y.obj) insts in
              if List.length (List.sort_uniq compare objs) <> List.length objs then raise (Unsupported "several future_sync calls on one object (--single)") end;
            let st = { steps = 0; labelled = 0 } in
-           List.iter (fun y -> replay_one p evs y st) insts;
+           List.iter (fun y -> replay_one p evs insts y st) insts;
            incr ok; calls := !calls + List.length insts;
            steps := !steps + st.steps; labelled := !labelled + st.labelled; events := !events + Array.length evs;
            Printf.printf "OK\t%s\t%d\t%d\n" file (List.length insts) st.steps
          with
          | Diverge msg -> incr bad; Printf.printf "DIVERGE\t%s\t%s\t%s\n" file !prog msg
-         | Unsupported why -> incr skipped; Printf.printf "SKIP\t%s\t%s\n" file why)) files;
+         | Unsupported why -> incr skipped; Printf.printf "SKIP\t%s\t%s\n" file why
+         | ex -> incr bad; Printf.printf "DIVERGE\t%s\t%s\tmalformed log (%s)\n" file !prog (Printexc.to_string ex))) files;
   let names = List.sort compare (Hashtbl.fold (fun k _ acc -> k :: acc) cov []) in
   Printf.printf "COVER\t%s\n" (String.concat "\t" (List.map (fun k -> Printf.sprintf "%s=%d" k (Hashtbl.find cov k)) names));
   Printf.printf "FACTS\tstate_dropped_first=%b\n" (f_state_dropped_first !facts);
